@@ -18,6 +18,9 @@ mod alloc;
 mod c17;
 mod srv;
 mod c08;
+mod c09;
+mod c10;
+mod c18;
 
 use cfg::Cfg;
 
@@ -46,6 +49,9 @@ fn main() {
         "c11" => c11::run(&cfg),
         "c17" => c17::run(&cfg),
         "c08" => c08::run(&cfg),
+        "c09" => c09::run(&cfg),
+        "c10" => c10::run(&cfg),
+        "c18" => c18::run(&cfg),
         _ => {
             eprintln!("unknown monitor {name}");
             std::process::exit(2);
